@@ -1,7 +1,7 @@
 """C14 - The protocol hash separates compatible from incompatible builds."""
 from engine import site_of
 from facts import callee_decl, callee_name
-from flow import tracer, short, required_outcomes, switch_cond, deep_origins
+from flow import dep_closure, tracer, short, required_outcomes, switch_cond, deep_origins
 from schedule import schedule
 
 EXPLANATION = (
@@ -87,6 +87,28 @@ def r1_must_hash(ctx):
             ctx.check(ok_t, key + "/type-param", site_of(body, hb),
                       "ProtocolHasher::%s is fed `%s`, which is not a type parameter of the registering function %s" % (method, targs, generics),
                       "%s::<%s>" % (method, targs[0] if targs else "?"))
+            # value arguments of the hasher call are the registering function's own parameters (what the caller asked for), and the
+            # same parameters also reach the registration itself - not something derived from the constructed object
+            if len(ht["args"]) > 1:
+                btr = tracer(body)
+                for ai, a in enumerate(ht["args"][1:], 1):
+                    src = btr.operand(a)
+                    ok_v = bool(src) and all(o.kind == "param" and not o.path for o in src)
+                    ctx.check(ok_v, key + "/value-arg-%d-is-parameter" % ai, site_of(body, hb),
+                              "ProtocolHasher::%s is fed a value computed from %s instead of the registering function's own parameter: two builds that register "
+                              "different values can compute the same protocol hash" % (method, sorted({(o.kind, str(o.data)[:40]) for o in src})[:3]))
+                    if ok_v:
+                        params = {o.data for o in src}
+                        used_elsewhere = any(any(k == "param" and d in params for (k, d) in dep_closure(body, a2))
+                                             for cb_, ct_ in body.calls() if cb_ != hb for a2 in ct_.get("args", []))
+                        if not used_elsewhere:
+                            from flow import closure_env_map
+                            for cbody in F.closures_of(body.path):
+                                for idx, (pb, cop) in closure_env_map(F, cbody).items():
+                                    if pb.path == body.path and any(k == "param" and d in params for (k, d) in dep_closure(body, cop)):
+                                        used_elsewhere = True
+                        ctx.check(used_elsewhere, key + "/value-arg-%d-also-registered" % ai, site_of(body, hb),
+                                  "the hashed parameter is not used by the registration itself")
             prev = used.get(method)
             if prev and prev != (body.path, kind.split(" ")[0]):
                 ctx.bad(key + "/distinct-method", site_of(body, hb),
